@@ -82,6 +82,8 @@ def _goal(case, out):
         kv = dict(x.split("=", 1) for x in out.split(" ")[1:])
         ret = {"1": "Some true", "0": "Some false", "-": "None"}[kv["ret"]]
         tag = "None" if kv["tag"] == "-" else "Some %s" % kv["tag"]
+        if kv["ret"] == "1" and kv["cr"] == "-":
+            return None  # copy_result not compared (graph not mt_consistent for this destination)
         exp = "Some (%s, %s, %s, %s)" % (ret, tag, _nats(kv["dst"]), _nats(kv["cr"]) if kv["ret"] == "1" else "[]")
     else:
         return None
